@@ -180,9 +180,17 @@ func outStrings(outs []outcome) []string {
 // ---- the harness state --------------------------------------------------------------------------------
 
 type H struct {
+	o   *vh.Opts
 	r   *vh.Rng
 	sum *vh.Summary
 	cw  *vh.CaseWriter
+}
+
+// run marks the case as the one in flight (so that a process death is attributed to it) and
+// drives the pipeline.
+func (h *H) run(desc map[string]interface{}, schema, input []byte, maxReads int) ([]outcome, error) {
+	vh.Current(h.o, desc)
+	return runPipeline(schema, input, maxReads)
 }
 
 // judge compares observed with expected (nil expected: no logical oracle, correspondence only).
@@ -418,7 +426,7 @@ func (h *H) csvCase() {
 				fs = append(fs, efield{V: v})
 			}
 			if len(fs) == 1 && len(fs[0].V) == 0 {
-				fs[0].V = []byte("'")
+				fs[0].V = []byte("x")
 			}
 			data = append(data, erow{Fields: fs, CRLF: r.Chance(0.3)})
 		}
@@ -465,7 +473,7 @@ func (h *H) csvCase() {
 		}
 	}
 	desc := map[string]interface{}{"stream": kind, "schema": string(schema), "input_hex": hex.EncodeToString(input), "header_mismatch": mismatch, "damage": damaged}
-	obs, serr := runPipeline(schema, input, len(data)+len(pre)+len(input)+6)
+	obs, serr := h.run(desc, schema, input, len(data)+len(pre)+len(input)+6)
 	if serr != nil {
 		h.sum.Fail("csv: generated schema rejected", desc, serr.Error())
 		return
@@ -819,7 +827,7 @@ func (h *H) csv2Case() {
 		}
 	}
 	desc := map[string]interface{}{"stream": kind, "schema": string(schema), "input_hex": hex.EncodeToString(input), "damage": damaged}
-	obs, serr := runPipeline(schema, input, len(rows)+len(input)+6)
+	obs, serr := h.run(desc, schema, input, len(rows)+len(input)+6)
 	if serr != nil {
 		h.sum.Fail("csv2: generated schema rejected", desc, serr.Error())
 		return
@@ -838,17 +846,54 @@ func (h *H) csv2Case() {
 
 // ---- fixed-length text of a plan ---------------------------------------------------------------------------------
 
+// boundaryUnits builds a line of exactly (or one around) a multiple of the 4096-byte bufio buffer,
+// optionally with a CR or a multi-byte rune sitting on the boundary.
+func boundaryUnits(r *vh.Rng, tag string) []unit {
+	target := 4096*r.Between(1, 3) + r.Between(-2, 2)
+	us := tagUnits(tag)
+	n := len(tag)
+	special := r.Pick(4)
+	for n < target {
+		switch {
+		case special == 1 && n == 4095:
+			us = append(us, unit{'\r'}) // CR as the last byte of the first fragment
+			n++
+		case special == 2 && n >= 4093 && n <= 4095:
+			us = append(us, unit("\xf0\x9f\x98\x80")) // a rune straddling the boundary
+			n += 4
+		case special == 3 && n%7 == 3:
+			us = append(us, unit("é"))
+			n += 2
+		default:
+			us = append(us, unit{byte('a' + n%26)})
+			n++
+		}
+	}
+	for len(us) > 0 && us[len(us)-1][0] == '\r' {
+		us[len(us)-1] = unit{'~'}
+	}
+	return us
+}
+
 func (h *H) fixedLines(p *plan, width int, long bool) (input []byte, nlines int, nt func(cols []fcol) bool) {
 	r := h.r
 	var all [][]unit
+	lastLen := 0
 	for ii := range p.insts {
 		in := &p.insts[ii]
 		for k, tag := range in.tags {
 			n := r.Between(0, width+3)
+			var us []unit
 			if long && ii == len(p.insts)/2 && k == 0 {
-				n = r.Between(4000, 12500)
+				if r.Chance(0.5) {
+					us = boundaryUnits(r, tag)
+				} else {
+					n = r.Between(4000, 12500)
+				}
 			}
-			us := append(tagUnits(tag), genUnits(r, n, r.Chance(0.3))...)
+			if us == nil {
+				us = append(tagUnits(tag), genUnits(r, n, r.Chance(0.3))...)
+			}
 			in.lines = append(in.lines, lline{units: us})
 			all = append(all, us)
 			if r.Chance(0.08) {
@@ -858,10 +903,13 @@ func (h *H) fixedLines(p *plan, width int, long bool) (input []byte, nlines int,
 			}
 			input = append(input, joinUnits(us)...)
 			input = append(input, eol(r.Chance(0.3))...)
+			lastLen = len(joinUnits(us))
 			nlines++
 		}
 	}
-	if r.Chance(0.1) && len(input) > 0 { // last line without terminator
+	// last line without terminator - inside the guard of known finding F22: an unterminated last
+	// line must be shorter than the reader's 4096-byte buffer
+	if r.Chance(0.1) && len(input) > 0 && lastLen < 4096 {
 		input = bytes.TrimSuffix(bytes.TrimSuffix(input, []byte("\n")), []byte("\r"))
 	}
 	nt = func(cols []fcol) bool {
@@ -880,7 +928,7 @@ func (h *H) fixedLines(p *plan, width int, long bool) (input []byte, nlines int,
 func (h *H) fixedCols(p *plan, width int, lineIndexOK, long bool) []fcol {
 	cols := genLayout(h.r, width)
 	if long && h.r.Chance(0.5) {
-		cols[0].Start, cols[0].Len = h.r.Between(3900, 4200), h.r.Between(1, 300)
+		cols[0].Start, cols[0].Len = h.r.Between(3900, 4200), h.r.Between(1, 60)
 	}
 	for i := range cols {
 		s := p.sel[h.r.Pick(len(p.sel))]
@@ -896,7 +944,7 @@ func (h *H) fixed2Case() {
 	r := h.r
 	p := h.genPlan()
 	width := r.Between(2, 24)
-	long := r.Chance(0.06)
+	long := r.Chance(0.04)
 	cols := h.fixedCols(&p, width, true, long)
 	input, nlines, ntf := h.fixedLines(&p, width, long)
 	var envs []map[string]interface{}
@@ -941,7 +989,7 @@ func (h *H) fixed2Case() {
 		}
 	}
 	desc := map[string]interface{}{"stream": kind, "schema": string(schema), "input_hex": hex.EncodeToString(input), "damage": damaged}
-	obs, serr := runPipeline(schema, input, nlines+len(input)+6)
+	obs, serr := h.run(desc, schema, input, nlines+len(input)+6)
 	if serr != nil {
 		h.sum.Fail("fixedlength2: generated schema rejected", desc, serr.Error())
 		return
@@ -965,7 +1013,7 @@ func (h *H) fixed2Case() {
 func (h *H) fixed1Case() {
 	r := h.r
 	width := r.Between(2, 24)
-	long := r.Chance(0.06)
+	long := r.Chance(0.04)
 	var p plan
 	ninst := r.Between(0, 6)
 	if r.Chance(0.08) {
@@ -1068,7 +1116,7 @@ func (h *H) fixed1Case() {
 		}
 	}
 	desc := map[string]interface{}{"stream": kind, "schema": string(schema), "input_hex": hex.EncodeToString(input), "damage": damaged}
-	obs, serr := runPipeline(schema, input, nlines+len(input)+6)
+	obs, serr := h.run(desc, schema, input, nlines+len(input)+6)
 	if serr != nil {
 		h.sum.Fail("fixed-length: generated schema rejected", desc, serr.Error())
 		return
@@ -1112,15 +1160,19 @@ func (h *H) fixed1Case() {
 
 // ---- corpus / replay ---------------------------------------------------------------------------------------------------
 
-// A corpus or replay file: {"case": {"stream", "schema", "input_hex"}, "expected": [...]} - run and
-// reported like generated cases (without a Coq term).
-func (h *H) replayFile(path string) {
+// A corpus or replay file: {"case": {"stream", "schema", "input_hex"}, "what": "...",
+// "expected": [[["column", "value-hex"], ...], ...]} - the case is run; when "expected" is present
+// the delivered records are compared with it and a difference is reported through sum.Fail
+// with key KeyOf(case) (this is how a known finding is recognised).
+func (h *H) replayFile(path string, verbose bool) {
 	b, err := os.ReadFile(path)
 	if err != nil {
 		return
 	}
 	var f struct {
-		Case map[string]interface{} `json:"case"`
+		Case     map[string]interface{} `json:"case"`
+		What     string                 `json:"what"`
+		Expected [][][2]string          `json:"expected"`
 	}
 	if json.Unmarshal(b, &f) != nil || f.Case == nil {
 		return
@@ -1131,32 +1183,71 @@ func (h *H) replayFile(path string) {
 	if schema == "" {
 		return
 	}
+	vh.Current(h.o, f.Case)
 	obs, serr := runPipeline([]byte(schema), input, len(input)+10)
-	fmt.Printf("replay %s\n  schema: %s\n  input: %q\n", path, schema, input)
+	if verbose {
+		fmt.Printf("replay %s\n  schema: %s\n  input (%d bytes): %.300q\n", path, schema, len(input), input)
+		if serr != nil {
+			fmt.Println("  schema rejected:", serr)
+		}
+		for i, o := range obs {
+			fmt.Printf("  read %d: %.400s\n", i+1, o)
+		}
+	}
 	if serr != nil {
-		fmt.Println("  schema rejected:", serr)
 		return
 	}
-	for i, o := range obs {
-		fmt.Printf("  read %d: %s\n", i+1, o)
-	}
+	h.sum.Hist("corpus")
 	for _, o := range obs {
 		if o.Kind == "panic" || o.Kind == "hang" {
 			h.sum.Fail("replay: Read "+o.Kind, f.Case, o.Msg)
+			return
 		}
+	}
+	if f.Expected == nil {
+		return
+	}
+	var got [][][2]string
+	for _, o := range obs {
+		if o.Kind == "node" {
+			rec := [][2]string{}
+			for _, k := range o.Kids {
+				rec = append(rec, [2]string{k.Name, hex.EncodeToString(k.Val)})
+			}
+			got = append(got, rec)
+		}
+	}
+	gb, _ := json.Marshal(got)
+	eb, _ := json.Marshal(f.Expected)
+	last := "none"
+	if len(obs) > 0 {
+		last = obs[len(obs)-1].Kind
+	}
+	if string(gb) != string(eb) || last != "eof" {
+		what := f.What
+		if what == "" {
+			what = "corpus case: delivered records differ from the expected ones"
+		}
+		h.sum.Fail(what, f.Case, map[string]interface{}{"delivered_records": len(got), "expected_records": len(f.Expected), "last_result": last})
+		if verbose {
+			fmt.Printf("  FAILS: %d records delivered, %d expected; key=%s\n", len(got), len(f.Expected), vh.KeyOf(f.Case))
+		}
+	} else if verbose {
+		fmt.Println("  passes")
 	}
 }
 
 func main() {
 	o := vh.ParseOpts()
-	h := &H{r: vh.NewRng(o.Seed)}
+	h := &H{o: o, r: vh.NewRng(o.Seed)}
 	h.sum = vh.NewSummary("C06", o,
 		"logical tables / line sets run through csv, csv2, fixed-length and fixedlength2 via Transform.Read + RawRecord, plus the csv encoder against encoding/csv; "+
 			"non-trivial = (delimited) at least one field needs quoting, (fixed-length) at least one multi-byte rune lies before a column boundary; distinct by (schema, input)")
 	h.cw = vh.NewCaseWriter(o, "C06", "Base.Utf8 Base.Tree Model.Csv Model.Fixed Model.Delim", "c06case", "check_case")
 	h.cw.PerFile = 120
 	if o.Replay != "" {
-		h.replayFile(o.Replay)
+		// a replay file written by bin/check has the case under "case"; corpus files too
+		h.replayFile(o.Replay, true)
 		h.sum.Write(o)
 		return
 	}
@@ -1164,10 +1255,10 @@ func main() {
 		files, _ := filepath.Glob(filepath.Join(o.Corpus, "*.json"))
 		sort.Strings(files)
 		for _, f := range files {
-			h.replayFile(f)
+			h.replayFile(f, false)
 		}
 	}
-	total := o.Count(1800, 60000)
+	total := o.Count(1500, 60000)
 	for c := 0; c < total; c++ {
 		switch k := h.r.Pick(10); {
 		case k < 2:
